@@ -151,6 +151,13 @@ func (r *runner) cardinality() {
 						if parent == "module" || parent == "submodule" {
 							continue
 						}
+						if parent == "list" {
+							// RFC 6020 ABNF: a list has a key (configuration) and at least one data definition
+							if child != "key" {
+								body = append(body, "key k;")
+							}
+							body = append(body, "leaf k { type string; }")
+						}
 						arg := g.argument(parent)
 						ps = parent
 						if arg != "" {
@@ -214,6 +221,12 @@ func (r *runner) cardinality() {
 					if rq != c1 && rq != c2 {
 						body = append(body, g.stmt(rq, "", nil))
 					}
+				}
+				if parent == "list" {
+					if c1 != "key" && c2 != "key" {
+						body = append(body, "key k;")
+					}
+					body = append(body, "leaf k { type string; }")
 				}
 				arg := g.argument(parent)
 				ps := parent
